@@ -10,12 +10,21 @@
      element-wise ratio relations with one common ratio — what Verify checks through SameRatioMany — IS
      the well-formed string of (r, alpha_tau[0], beta_tau[0]); C18_srs_of_wellformed is the converse.
 
+   Phase 2 in the exponent (Std/Mpc2.v, any field):
+   - C18_update2_params_of / C18_chain2_params_of: a contribution (d, sigmas') maps the parameters of
+     (delta, sigmas) over fixed numerators to those of (delta d, sigmas .* sigmas'); every honest chain from
+     Initialize yields the parameters a trusted setup with delta = the product would have produced;
+   - C18_verified2_sound: the element-wise relations Phase2.Verify establishes through the update proofs
+     (delta' = x delta, Z = x Z', PKK = x PKK' "backwards", sigma' = y sigma, SigmaCKK' = y SigmaCKK) force
+     next = update2 prev x ys;  C18_invariants2: delta*Z and delta*PKK are invariant (checked by pairings
+     on the real contributions).
+
    Named residue: the random-coefficient batching of the ratio checks, the pairing, hash-to-curve and
-   the proofs of knowledge are cryptographic; phase 2, the Lagrange conversion and the key assembly are
+   the proofs of knowledge are cryptographic; the Lagrange conversion and the key assembly are
    decided by the harness (honest chains verify, keys prove / verify, every element altered is rejected,
    reordered / duplicated / spliced / non-extending chains are rejected). *)
 From Coq Require Import Arith Field List.
-From GnarkV Require Import Std.Mpc.
+From GnarkV Require Import Std.Mpc Std.Mpc2.
 Import ListNotations.
 
 Section C18.
@@ -55,6 +64,30 @@ Theorem C18_srs_of_wellformed : forall N t a b,
   hd one (tau1 F s) = one /\ hd one (tau2 F s) = one /\ beta2 F s = hd one (beta_tau F s) /\
   ratio t (tau1 F s) /\ ratio t (tau2 F s) /\ ratio t (alpha_tau F s) /\ ratio t (beta_tau F s).
 Proof. exact (srs_of_wellformed F zero one add mul sub opp div inv Fth). Qed.
+
+Theorem C18_update2_params_of : forall zn kn cb dl sg d ss,
+  dl <> zero -> d <> zero -> length sg = length ss ->
+  update2 F mul inv (params_of F mul inv zn kn cb dl sg) d ss = params_of F mul inv zn kn cb (mul dl d) (mul_each F mul sg ss).
+Proof. exact (update2_params_of F zero one add mul sub opp div inv Fth). Qed.
+
+Theorem C18_chain2_params_of : forall zn kn cb cs dl sg,
+  dl <> zero -> (forall c, In c cs -> fst c <> zero /\ length (snd c) = length sg) ->
+  contribute2 F mul inv (params_of F mul inv zn kn cb dl sg) cs =
+  let '(dl', sg') := prod2 F mul dl sg cs in params_of F mul inv zn kn cb dl' sg'.
+Proof. exact (chain2_params_of F zero one add mul sub opp div inv Fth). Qed.
+
+Theorem C18_verified2_sound : forall (p q : params F) x ys,
+  x <> zero ->
+  delta F q = mul (delta F p) x ->
+  zs F p = scale F mul x (zs F q) -> pkk F p = scale F mul x (pkk F q) ->
+  rel_each F mul ys (sigma F p) (sigma F q) (sckk F p) (sckk F q) ->
+  q = update2 F mul inv p x ys.
+Proof. exact (verified2_sound F zero one add mul sub opp div inv Fth). Qed.
+
+Theorem C18_invariants2 : forall (p : params F) d ss, d <> zero ->
+  scale F mul (delta F (update2 F mul inv p d ss)) (zs F (update2 F mul inv p d ss)) = scale F mul (delta F p) (zs F p) /\
+  scale F mul (delta F (update2 F mul inv p d ss)) (pkk F (update2 F mul inv p d ss)) = scale F mul (delta F p) (pkk F p).
+Proof. exact (invariants2 F zero one add mul sub opp div inv Fth). Qed.
 End C18.
 
 Print Assumptions C18_update_srs_of.
@@ -62,3 +95,7 @@ Print Assumptions C18_chain_srs_of.
 Print Assumptions C18_ratio_powers.
 Print Assumptions C18_wellformed_sound.
 Print Assumptions C18_srs_of_wellformed.
+Print Assumptions C18_update2_params_of.
+Print Assumptions C18_chain2_params_of.
+Print Assumptions C18_verified2_sound.
+Print Assumptions C18_invariants2.
